@@ -77,23 +77,37 @@ def build_harness(race=False):
     return out
 
 
-def run_harness(driver, scripts_path, outdir, race=False, timeout=1800, extra_env=None):
-    """Execute scripts on the real code. Returns (trace_path, bounds_path, ntraces)."""
+def run_harness(driver, scripts_path, outdir, race=False, timeout=1800, extra_env=None, tag=""):
+    """Execute scripts on the real code. Returns (trace_path, bounds_path, ntraces, nevents).
+    When the code under test panics the harness logs the panic, exits with status 75 and is
+    resumed with the next script in a fresh process."""
     binp = build_harness(race)
-    trace = os.path.join(outdir, f"{driver}.trace.ndjson")
-    bounds = os.path.join(outdir, f"{driver}.bounds.ndjson")
+    trace = os.path.join(outdir, f"{driver}{tag}.trace.ndjson")
+    bounds = os.path.join(outdir, f"{driver}{tag}.bounds.ndjson")
     env = go_env()
     env.update(VERIF_DRIVER=driver, VERIF_SCRIPTS=scripts_path, VERIF_TRACE=trace, VERIF_BOUNDS=bounds)
     if extra_env:
         env.update(extra_env)
     t0 = time.time()
-    p = subprocess.run([binp, "-test.run", "^TestDriver$", "-test.timeout", "0", "-test.count", "1"],
-                       cwd=outdir, env=env, capture_output=True, text=True, timeout=timeout)
-    if p.returncode != 0:
-        raise MachineryError(f"harness driver {driver} failed (exit {p.returncode}):\n" + (p.stdout + p.stderr)[-4000:])
+    restarts = 0
+    while True:
+        try:
+            p = subprocess.run([binp, "-test.run", "^TestDriver$", "-test.timeout", "0", "-test.count", "1"],
+                               cwd=outdir, env=env, capture_output=True, text=True, timeout=timeout)
+        except subprocess.TimeoutExpired:
+            raise MachineryError(f"harness driver {driver} timed out after {timeout}s")
+        if p.returncode == 75 and os.path.exists(trace + ".resume"):
+            env["VERIF_RESUME_FROM"] = open(trace + ".resume").read().strip()
+            os.remove(trace + ".resume")
+            restarts += 1
+            if restarts > 5000:
+                raise MachineryError("harness restarted too often")
+            continue
+        if p.returncode != 0:
+            raise MachineryError(f"harness driver {driver} failed (exit {p.returncode}):\n" + (p.stdout + p.stderr)[-4000:])
+        break
     n = sum(1 for _ in open(bounds))
     nev = sum(1 for _ in open(trace))
-    log(f"[exec] driver={driver} traces={n} events={nev} {time.time()-t0:.1f}s")
     return trace, bounds, n, nev
 
 
@@ -104,6 +118,13 @@ def _stage(dirs, scratch):
         for f in os.listdir(d):
             if f.endswith(".tla") or f.endswith(".cfg"):
                 shutil.copyfile(os.path.join(d, f), os.path.join(scratch, f))
+
+
+def JVM_FLAGS(workers):
+    # many single-worker TLC processes run side by side: keep each JVM small
+    if workers == 1:
+        return ["-XX:+UseSerialGC", "-XX:CICompilerCount=2", "-XX:-UsePerfData"]
+    return ["-XX:+UseParallelGC"]
 
 
 STATS_RE = re.compile(r"(\d+) states generated, (\d+) distinct states found, (\d+) states left on queue")
@@ -119,7 +140,7 @@ def tlc(module, cfg=None, subdir=None, workers=1, heap="4g", timeout=900, env=No
         if subdir:
             dirs.append(os.path.join(SPEC, subdir))
         _stage(dirs, scratch)
-        cmd = ["java", "-XX:+UseParallelGC", f"-Xmx{heap}", "-Xss64m", "-cp", TLA_CP, "tlc2.TLC",
+        cmd = ["java"] + JVM_FLAGS(workers) + [f"-Xmx{heap}", "-Xss64m", "-cp", TLA_CP, "tlc2.TLC",
                "-workers", str(workers), "-metadir", os.path.join(scratch, "meta"),
                "-noGenerateSpecTE"]
         if cfg:
@@ -142,6 +163,9 @@ def tlc(module, cfg=None, subdir=None, workers=1, heap="4g", timeout=900, env=No
         except subprocess.TimeoutExpired:
             raise MachineryError(f"TLC timeout after {timeout}s on {module}")
         out = p.stdout
+        if os.environ.get("VERIF_DEBUG_DIR"):
+            with open(os.path.join(os.environ["VERIF_DEBUG_DIR"], f"tlc-{module}-{int(time.time()*1000)}.out"), "w") as df:
+                df.write(out)
         m = None
         for m in STATS_RE.finditer(out):
             pass
@@ -164,7 +188,7 @@ def tla_unquote(s):
 
 
 SCRIPT_RE = re.compile(r'^<<"SCRIPT", "(.*)">>$')
-VERDICT_RE = re.compile(r'^<<"VERDICT", (-?\d+), (\d+), "([^"]*)">>$')
+VERDICT_RE = re.compile(r'^<<"VERDICT", (-?\d+), (\d+), "([^"]*)", "(.*)">>$')
 
 
 def scripts_from_tlc(stdout):
@@ -229,7 +253,7 @@ def validate(trace_module, trace, bounds, ntraces, heap="4g", timeout=1800, cfg=
         for line in r["stdout"].splitlines():
             m = VERDICT_RE.match(line)
             if m:
-                verdicts[int(m.group(1))] = (int(m.group(2)), m.group(3))
+                verdicts[int(m.group(1))] = (int(m.group(2)), m.group(3), m.group(4))
         if not r["ok"]:
             raise MachineryError(f"trace validation ({trace_module}) did not complete:\n" + r["stdout"][-3000:])
         agg["distinct"] += r["distinct"]
@@ -295,6 +319,21 @@ def read_lines(path):
         return f.read().splitlines()
 
 
+def belongs(inv, prefixes):
+    """An invariant name starts with the ids of the properties it belongs to (C06_C02_AbortOpen);
+    a prefix entry may be a property id ("C06"), a name prefix ("C11_") or "" (everything)."""
+    toks = []
+    for tok in inv.split("_"):
+        if len(tok) == 3 and tok[0] == "C" and tok[1:].isdigit():
+            toks.append(tok)
+        else:
+            break
+    for p in prefixes:
+        if p == "" or p in toks or (p.endswith("_") and inv.startswith(p)):
+            return True
+    return False
+
+
 class Family:
     """One batch of scripts for one driver, validated by one trace specification."""
 
@@ -307,39 +346,114 @@ class Family:
 
 
 def run_family(fam, scratch, prefixes, allow_incomplete=False):
-    """Execute + validate. Returns dict with verdict list limited to invariants whose name starts with
-    one of prefixes: [(script_id, line, inv, event, ops)], plus counters."""
-    spath = os.path.join(scratch, f"{fam.name}.scripts.ndjson")
-    write_scripts(fam.scripts, spath)
+    """Execute + validate, in parallel chunks (one harness process and one TLC process per chunk).
+    Returns dict with the violating traces whose first violated invariant belongs to one of
+    `prefixes`: [(script_id, line, inv, event, ops)], the others, plus counters."""
+    from concurrent.futures import ThreadPoolExecutor
+    n = len(fam.scripts)
+    # a TLC process costs ~3 s to start; only large logs are worth splitting
+    nops = sum(len(sc) for sc in fam.scripts)
+    nchunks = max(1, min(6, n, nops // 40000))
     sub = os.path.join(scratch, fam.name)
     os.makedirs(sub, exist_ok=True)
-    trace, bounds, n, nev = run_harness(fam.driver, spath, sub, race=fam.race, extra_env=fam.env)
-    verdicts, r = validate(fam.trace_module, trace, bounds, n, nevents=nev, allow_incomplete=allow_incomplete)
-    lines = None
+    chunks = []
+    for c in range(nchunks):
+        ids = list(range(c, n, nchunks))
+        spath = os.path.join(sub, f"scripts{c}.ndjson")
+        with open(spath, "w") as f:
+            for i in ids:
+                f.write(json.dumps({"id": i + 1, "ops": fam.scripts[i]}, separators=(",", ":")) + "\n")
+        chunks.append((c, spath, len(ids)))
+    t0 = time.time()
+
+    def work(ch):
+        c, spath, cnt = ch
+        trace, bounds, nt, nev = run_harness(fam.driver, spath, sub, race=fam.race, extra_env=fam.env, tag=str(c))
+        if nt != cnt:
+            raise MachineryError(f"harness produced {nt} traces for {cnt} scripts")
+        r = _validate_one(fam.trace_module, trace, bounds, "3g", 1800, None)
+        return trace, nt, nev, r
+
+    with ThreadPoolExecutor(max_workers=nchunks) as ex:
+        results = list(ex.map(work, chunks))
     bad, other = [], []
-    for sid, (ln, inv) in sorted(verdicts.items()):
-        if inv == "ok":
-            continue
-        if lines is None:
-            lines = read_lines(trace)
-        ev = json.loads(lines[ln - 1]) if 0 < ln <= len(lines) else None
-        rec = (sid, ln, inv, ev, fam.scripts[sid - 1])
-        if any(inv.startswith(p) for p in prefixes):
-            bad.append(rec)
-        else:
-            other.append(rec)
-    return dict(bad=bad, other=other, traces=n, events=nev, states=r["distinct"], transitions=r["generated"],
-                wall=r["wall"])
+    traces = events = states = trans = 0
+    for trace, nt, nev, r in results:
+        traces += nt
+        events += nev
+        states += r["distinct"]
+        trans += r["generated"]
+        if not r["ok"]:
+            raise MachineryError(f"trace validation ({fam.trace_module}) did not complete:\n" + r["stdout"][-3000:])
+        verdicts = {}
+        for line in r["stdout"].splitlines():
+            m = VERDICT_RE.match(line)
+            if m:
+                verdicts[int(m.group(1))] = (int(m.group(2)), m.group(3), m.group(4))
+        if len(verdicts) != nt and not allow_incomplete:
+            # a trace that the specification could not consume completely (an action guard refused an
+            # event) produces no verdict: that is a defect of the generator/harness, never a violation
+            raise MachineryError(f"trace validation ({fam.trace_module}): {len(verdicts)} verdicts for {nt} traces "
+                                 "(some trace was not consumed completely)\n" + r["stdout"][-1500:])
+        lines = None
+        for sid, (ln, inv, exp) in sorted(verdicts.items()):
+            if inv == "ok":
+                continue
+            if lines is None:
+                lines = read_lines(trace)
+            ev = json.loads(lines[ln - 1]) if 0 < ln <= len(lines) else None
+            if ev is not None:
+                ev["_expected"] = exp
+            rec = (sid, ln, inv, ev, fam.scripts[sid - 1])
+            if inv.startswith("MACHINERY") and allow_incomplete:
+                continue
+            if inv.startswith("MACHINERY"):
+                raise MachineryError(f"trace validation reports {inv} for script {sid}: {json.dumps(ev)[:300]}")
+            if belongs(inv, prefixes):
+                bad.append(rec)
+            else:
+                other.append(rec)
+    log(f"[exec+validate] family={fam.name} driver={fam.driver} spec={fam.trace_module} traces={traces} "
+        f"events={events} states={states} chunks={nchunks} {time.time()-t0:.1f}s")
+    return dict(bad=bad, other=other, traces=traces, events=events, states=states, transitions=trans,
+                wall=time.time() - t0)
 
+def shrink(driver, trace_module, ops, inv, env=None, rounds=60):
+    """Block-removal minimisation of a failing script (all candidates of a round are executed and
+    validated in one batch; candidates the specification cannot consume are skipped)."""
+    def without(ops, lo, hi):
+        out = []
+        k = hi - lo
+        for j, o in enumerate(ops):
+            if lo <= j < hi:
+                continue
+            f = o.get("first", 0) if isinstance(o, dict) else 0
+            if f:
+                o = dict(o)
+                if lo <= f - 1 < hi:
+                    o["first"] = 0
+                elif f - 1 >= hi:
+                    o["first"] = f - k
+            out.append(o)
+        return out
 
-def shrink(driver, trace_module, ops, inv, env=None, rounds=30):
-    """Greedy one-op-removal minimisation of a failing script (all candidates of a round are
-    executed and validated in one batch; candidates the specification cannot consume are skipped)."""
     cur = list(ops)
     for _ in range(rounds):
-        cands = [cur[:i] + cur[i + 1:] for i in range(len(cur))]
-        # also try truncations
-        cands += [cur[:i] for i in range(1, len(cur))]
+        n = len(cur)
+        cands = []
+        size = max(1, n // 2)
+        seen = set()
+        while True:
+            for lo in range(0, n, size):
+                key = (lo, min(n, lo + size))
+                if key not in seen and key != (0, n):
+                    seen.add(key)
+                    cands.append(without(cur, *key))
+            if size == 1:
+                break
+            size = max(1, size // 2)
+        if not cands:
+            break
         scratch = tempfile.mkdtemp(prefix="vshrink-")
         try:
             fam = Family("shrink", driver, trace_module, cands, env=env)
